@@ -177,8 +177,24 @@ func determineTagNames(dimensions []interface{}, excluded []string) (allDimensio
 		}
 	}
 	sort.Strings(realDimensions)
+	// A dimension named twice is one dimension: groupBy('host', 'host') groups like groupBy('host').
+	// With the repetition kept the group ID read host=A,host=A on a stream edge and in the batch
+	// header this node builds, but host=A wherever dimensions are derived from the tags of the
+	// group (behind a window, or once a batch has passed through a UDF).
+	realDimensions = uniqueSorted(realDimensions)
 	realDimensions = filterExcludedTagNames(realDimensions, excluded)
 	return
+}
+
+// uniqueSorted removes the repeated elements of a sorted list, in place.
+func uniqueSorted(l []string) []string {
+	unique := l[0:0]
+	for _, s := range l {
+		if len(unique) == 0 || unique[len(unique)-1] != s {
+			unique = append(unique, s)
+		}
+	}
+	return unique
 }
 
 func filterExcludedTagNames(tagNames, excluded []string) []string {
